@@ -31,6 +31,7 @@ type replayCtx struct {
 	pkg   *types.Package
 	funcs map[string]string // compiled spec functions: name -> Go source
 	err   error
+	usesDomain bool
 }
 
 type rType int
@@ -40,6 +41,7 @@ const (
 	rtInt
 	rtValue // a Go expression of type tla.Value (or the package-local Value)
 	rtAbs   // abs(<Go expression of type Value>)
+	rtSet   // setOf(abs(v)): src is the Go expression of the set-valued tla.Value
 )
 
 type rExpr struct {
@@ -108,6 +110,13 @@ func (rc *replayCtx) compile(e Expr, vars map[string]rExpr) rExpr {
 			if l.t == r.t && (l.t == rtBool || l.t == rtInt) {
 				return rExpr{"(" + l.src + " " + x.Op + " " + r.src + ")", rtBool}
 			}
+			if l.t == rtAbs && r.t == rtAbs {
+				// equality of abstract values: decided by Value.Equal (verified against abs under C05)
+				if x.Op == "==" {
+					return rExpr{"(" + l.src + ").Equal(" + r.src + ")", rtBool}
+				}
+				return rExpr{"!(" + l.src + ").Equal(" + r.src + ")", rtBool}
+			}
 		case "<", "<=", ">", ">=":
 			if l.t == rtInt && r.t == rtInt {
 				return rExpr{"(" + l.src + " " + x.Op + " " + r.src + ")", rtBool}
@@ -115,6 +124,10 @@ func (rc *replayCtx) compile(e Expr, vars map[string]rExpr) rExpr {
 		case "+", "-", "*":
 			if l.t == rtInt && r.t == rtInt {
 				return rExpr{"(" + l.src + " " + x.Op + " " + r.src + ")", rtInt}
+			}
+		case "in":
+			if l.t == rtAbs && r.t == rtSet {
+				return rExpr{"pvSetHas(" + r.src + ", " + l.src + ")", rtBool}
 			}
 		case "div":
 			if l.t == rtInt && r.t == rtInt {
@@ -150,6 +163,12 @@ func (rc *replayCtx) compile(e Expr, vars map[string]rExpr) rExpr {
 			}
 			m := map[string]string{"isNum": "IsNumber", "isBool": "IsBool", "isStr": "IsString", "isSet": "IsSet", "isTup": "IsTuple", "isFun": "IsFunction"}[x.Fn]
 			return rExpr{"(" + v.src + ")." + m + "()", rtBool}
+		case "setOf":
+			v := rc.compile(x.Args[0], vars)
+			if v.t != rtAbs {
+				return rc.fail("setOf")
+			}
+			return rExpr{v.src, rtSet}
 		case "numOf":
 			v := rc.compile(x.Args[0], vars)
 			if v.t != rtAbs {
@@ -210,6 +229,25 @@ func (rc *replayCtx) compile(e Expr, vars map[string]rExpr) rExpr {
 		}
 		return rExpr{"pvSpec_" + x.Fn + "(" + strings.Join(args, ", ") + ")", rt}
 	}
+	if q, ok := e.(EQuant); ok && len(q.Vars) == 1 && q.Vars[0].Type == "Val" {
+		// quantification over TLA+ values, evaluated over the elements occurring in the arguments and the result
+		// (sound for clauses whose atoms about the bound variable are memberships in those sets)
+		inner := map[string]rExpr{}
+		for k, v := range vars {
+			inner[k] = v
+		}
+		name := "pvq_" + q.Vars[0].Name
+		inner[q.Vars[0].Name] = rExpr{name, rtAbs}
+		body := rc.compile(q.Body, inner)
+		if body.t != rtBool {
+			return rc.fail("quantifier body")
+		}
+		rc.usesDomain = true
+		if q.Forall {
+			return rExpr{fmt.Sprintf("func() bool { for _, %s := range pvDomain() { if !(%s) { return false } }; return true }()", name, body.src), rtBool}
+		}
+		return rExpr{fmt.Sprintf("func() bool { for _, %s := range pvDomain() { if %s { return true } }; return false }()", name, body.src), rtBool}
+	}
 	return rc.fail("expression outside the executable fragment")
 }
 
@@ -220,7 +258,8 @@ func (rc *replayCtx) replayPool(t types.Type) (goType string, pool []string, ok 
 		for _, v := range []string{"0", "1", "-1", "2", "-2", "3", "-3", "7", "-7", "2147483647", "-2147483648", "46341", "65536", "-65536"} {
 			pool = append(pool, q+"MakeNumber("+v+")")
 		}
-		pool = append(pool, q+"MakeBool(true)", q+"MakeBool(false)", q+"MakeString(\"s\")", q+"MakeSet()", q+"MakeTuple()")
+		pool = append(pool, q+"MakeBool(true)", q+"MakeBool(false)", q+"MakeString(\"s\")", q+"MakeSet()", q+"MakeTuple()",
+			q+"MakeSet("+q+"MakeNumber(1))", q+"MakeSet("+q+"MakeNumber(1), "+q+"MakeNumber(2))", q+"MakeSet("+q+"MakeNumber(2), "+q+"MakeNumber(3), "+q+"MakeString(\"s\"))")
 		return q + "Value", pool, true
 	}
 	if b, isBasic := t.Underlying().(*types.Basic); isBasic {
@@ -324,9 +363,20 @@ func (eng *Engine) tryReplay(r FuncResult, o OblResult, rep map[string]interface
 	for _, src := range rc.funcs {
 		b.WriteString(src)
 	}
+	q := rc.valueQual()
+	fmt.Fprintf(&b, "var pvDom []%sValue\nfunc pvDomain() []%sValue { return pvDom }\n", q, q)
+	fmt.Fprintf(&b, "func pvSetHas(set, x %sValue) bool { if !set.IsSet() { return false }; _, ok := set.AsSet().Get(x); return ok }\n", q)
+	fmt.Fprintf(&b, "func pvCollect(vs ...%sValue) { pvDom = []%sValue{%sMakeNumber(0), %sMakeNumber(1), %sMakeNumber(2), %sMakeNumber(3), %sMakeString(\"s\")}; for _, v := range vs { pvDom = append(pvDom, v); if v.IsSet() { it := v.AsSet().Iterator(); for !it.Done() { e, _, _ := it.Next(); pvDom = append(pvDom, e) } } } }\n", q, q, q, q, q, q, q)
 	tlaErr := rc.valueQual() + "ErrTLAType"
 	fmt.Fprintf(&b, "\nfunc pvCheck(%s) (bad string) {\n", strings.Join(paramDecls, ", "))
 	fmt.Fprintf(&b, "\tdefer func() { if r := recover(); r != nil { bad = fmt.Sprint(\"the contract itself could not be evaluated on this input: \", r) } }()\n")
+	var valueParams []string
+	for i, p := range fn.Params {
+		if strings.HasSuffix(strings.SplitN(paramDecls[i], " ", 2)[1], "Value") {
+			valueParams = append(valueParams, p.Name())
+		}
+	}
+	fmt.Fprintf(&b, "\tpvCollect(%s)\n", strings.Join(valueParams, ", "))
 	fmt.Fprintf(&b, "\tif !(%s) { return \"\" }\n", pre)
 	fmt.Fprintf(&b, "\texpectPanic := %s\n", panicCond)
 	fmt.Fprintf(&b, "\tvar pvRes %s\n\tpanicked, isTLA, pval := false, false, interface{}(nil)\n", resT)
@@ -336,6 +386,9 @@ func (eng *Engine) tryReplay(r FuncResult, o OblResult, rep map[string]interface
 		fmt.Fprintf(&b, "\tif panicked && !isTLA { return fmt.Sprintf(\"the panic is not a TLA+ type error: %%v\", pval) }\n")
 	}
 	fmt.Fprintf(&b, "\tif panicked { return \"\" }\n")
+	if strings.HasSuffix(resT, "Value") {
+		fmt.Fprintf(&b, "\tpvCollect(%s)\n", strings.Join(append(append([]string{}, valueParams...), "pvRes"), ", "))
+	}
 	for _, e := range enss {
 		fmt.Fprintf(&b, "\tif !(%s) { return fmt.Sprintf(\"ensures %%s is false; result = %%v\", %q, pvRes) }\n", e.src, e.text)
 	}
